@@ -137,6 +137,84 @@ func ruleDbIterGuards(p *Prog, r *Report, rule string) {
 		// conversely: every visible value entry that does not end the scan becomes the candidate (the
 		// newest visible version seen last wins); skipping one presents an older version
 		checkGuardExact(p, r, GuardSpec{Rule: "prev-candidate-updated", Fn: fn, Starts: after(fn, parse), Target: storeF("key"), TargetDesc: "the entry becomes the candidate (i.key/i.value)", Atoms: []Atom{kerrNil, seqOK, isDel, less}, G: func(a []bool) bool { return a[0] && a[1] && !a[2] && !a[3] }, GDesc: "kerr==nil ∧ seq<=i.seq ∧ kind≠Del ∧ same-or-greater user key", Avoid: parse}, orPred(innerPrev, isReturn), "the next raw entry / return")
+		// the tombstone flag `del` ("the candidate so far is deleted") is loop-carried: after a raw
+		// entry has been looked at it is (kind==Del) when the entry is visible (kerr==nil ∧ seq<=i.seq)
+		// and UNCHANGED otherwise — an entry above the iterator's sequence, tombstone or not, must
+		// not influence the scan (it would hide keys from Prev that Next still shows)
+		func() {
+			var pc ssa.Instruction
+			instrs(fn, func(_ *ssa.BasicBlock, _ int, in ssa.Instruction) {
+				if parse(in) && pc == nil {
+					pc = in
+				}
+			})
+			var hdr *ssa.Phi
+			if pc != nil {
+				for b := pc.Block(); b != nil && hdr == nil; b = b.Idom() {
+					for _, in := range b.Instrs {
+						if ph, ok := in.(*ssa.Phi); ok && ph.Comment == "del" {
+							hdr = ph
+							break
+						}
+					}
+				}
+			}
+			r.Site(1)
+			if hdr == nil {
+				r.Fail(fnName(fn), "prev-tombstone-flag:unresolved-anchor", "the backward scan carries a tombstone flag across raw entries", "no loop-carried `del` value found at the loop head", p.Pos(fn.Pos()), nil)
+				return
+			}
+			hb := hdr.Block()
+			fatoms := []Atom{kerrNil, seqOK, isDel}
+			bad := ""
+			badPos := ""
+			npaths := 0
+			for pi, pred := range hb.Preds {
+				if !hb.Dominates(pred) {
+					continue // entry edge
+				}
+				for m := 0; m < 8 && bad == ""; m++ {
+					a := []bool{m&1 != 0, m&2 != 0, m&4 != 0}
+					complete := enumPaths(point{pc.Block(), indexOf(pc) + 1}, atomEdges(fatoms, a), pred, hb, 200, func(path []*ssa.BasicBlock) {
+						npaths++
+						full := append(append([]*ssa.BasicBlock{}, path...), hb)
+						_ = full
+						v := resolveAlong(hdr.Edges[pi], path)
+						visible := a[0] && a[1]
+						desc := fmt.Sprintf("{kerr==nil=%v, seq<=i.seq=%v, kind==Del=%v}", a[0], a[1], a[2])
+						if !visible {
+							if v != ssa.Value(hdr) && bad == "" {
+								bad = "with " + desc + " (the entry is not visible) the flag is changed to " + v.String() + " instead of being left alone"
+								badPos = p.Pos(pc.Pos())
+							}
+							return
+						}
+						var got, known bool
+						if c, ok := constBool(v); ok {
+							got, known = c, true
+						} else if bv, ok := atomVals(fatoms, a)(v); ok {
+							got, known = bv, true
+						}
+						if (!known || got != a[2]) && bad == "" {
+							bad = "with " + desc + " (a visible entry) the flag becomes " + v.String() + ", expected kind==Del"
+							badPos = p.Pos(pc.Pos())
+						}
+					})
+					if !complete && bad == "" {
+						bad = "too many paths through the loop body to enumerate"
+						badPos = p.Pos(fn.Pos())
+					}
+				}
+			}
+			r.Site(npaths)
+			if bad != "" {
+				r.Fail(fnName(fn), "prev-tombstone-flag", "after each raw entry the tombstone flag is kind==Del for a visible entry and unchanged for an invisible or unparsable one", bad, badPos, nil)
+			} else if npaths == 0 {
+				r.Fail(fnName(fn), "prev-tombstone-flag:unresolved-anchor", "the backward scan carries a tombstone flag across raw entries", "no path from the parsed entry to the next loop iteration", p.Pos(fn.Pos()), nil)
+			} else {
+				r.OK(fnName(fn), "prev-tombstone-flag", "after each raw entry the tombstone flag is kind==Del for a visible entry and unchanged for an invisible or unparsable one")
+			}
+		}()
 		checkGuard(p, r, GuardSpec{Rule: "prev-stop", Fn: fn, Starts: after(fn, parse), Target: retConstBool(true), TargetDesc: "return true from inside the backward scan", Atoms: []Atom{kerrNil, seqOK, less}, G: func(a []bool) bool { return a[0] && a[1] && a[2] }, GDesc: "kerr==nil ∧ seq<=i.seq ∧ uCompare(ukey,i.key)<0", Avoid: orPred(parse, innerPrev), MinTargets: 1})
 	}
 	if fn := resolveFn(p, r, "leveldb", "(*dbIter).Prev"); fn != nil {
